@@ -174,6 +174,8 @@ PROPS = {
                 explanation='Same exploration plus junk templates (arbitrary UTF-8 holes, empty target set, current time before every `to`): whenever the '
                             'reference evaluation finds no ready element the output buffer equals the input byte for byte.'),
     'C14': dict(jobs=jobs_pipe('C14'), tv=('front', 'pipe'), assumptions=PIPE_ASSUME,
+                kani=['proofs::indent_remover_covers_only_blanks', 'proofs::prev_line_break_remover_covers_only_blanks', 'proofs::next_line_break_remover_covers_only_blanks',
+                      'proofs::empty_line_remover_covers_only_blanks'],
                 explanation='Same exploration; assertion: alignment in which a blank may only be deleted if it is not strictly between the first and last '
                             'non-blank byte of its stretch (maximal run without removed bytes; per line inside an unwrapped body).'),
     'C11': dict(jobs=props_pipe.c11_jobs, tv=('front', 'pipe'), assumptions=PIPE_ASSUME,
@@ -193,7 +195,7 @@ PROPS = {
                 explanation='clean on unwrap-block documents in which every indentation is a symbolic blank/tab hole in front of a fixed prefix (none, 2 spaces, '
                             'nested 2 spaces, tabs): per surviving inner line the removed columns are exactly [T, min(T+S, indent)) with T = tag indent, '
                             'S = max(0, indent(first inner line) - T); blocks on the first line, nested ready elements and nested unwrap blocks included.'),
-    'C13': dict(jobs=props_pipe.c13_jobs, tv=('front', 'pipe'), assumptions=PIPE_ASSUME,
+    'C13': dict(jobs=props_pipe.c13_jobs, tv=('front', 'pipe'), assumptions=PIPE_ASSUME, kani=['proofs::finders_return_line_breaks'],
                 explanation='clean on block documents: b blank lines before and a after a removed default-strategy block (a, b = 0..4, every blank line a symbolic '
                             'whitespace hole, indentation holes on every line, two blocks, pending parent, with/without final newline): surviving non-blank '
                             'lines byte-for-byte in order, and exactly a+b-[a>0 and b>0] blank lines between the neighbours.'),
